@@ -76,7 +76,14 @@ def main():
     # structured family: a request in flight while the order is filled / lapsed / voided (the latency window races)
     scs3 = [race_scenario(rng) for _ in range(n // 2)]
     simcheck.run_family(ck, "requests_in_flight_races", scs3, propcheck.c04, "C04", "race", hyp=True)
-    return ck.finish("whole-loop scenarios on the real FlumineSimulation (book changes, trades, suspend/re-open with and without version change, turn in-play with BSP reconciliation, runner removal, closure) x scripts of place/cancel (full, partial, larger than the remainder)/replace/update at any timing x plain/fill-or-kill/three persistence types x best-price execution on/off x full-match; buckets sampled at every strategy call; compared with the Coq model (both tie-breaks) and checked by an independent conservation checker")
+    # the same loop with every order object built when the strategy is added, i.e. before FlumineSimulation.run() starts (an order caches
+    # whether it is simulated; Transaction.place_order -> order.update_client refreshes it at placement time)
+    scs4 = [simgen.gen_scenario(rng, {"kinds": ["L"] * 9 + ["LOC", "MOC"], "p_manage": 0.6, "p_fok": 0.2}) for _ in range(n // 3)]
+    for sc in scs4:
+        for st in sc["strategies"]:
+            st["precreate"] = True
+    simcheck.run_family(ck, "orders_built_before_the_run", scs4, propcheck.c04, "C04", "pre", hyp=True)
+    return ck.finish("whole-loop scenarios on the real FlumineSimulation (book changes, trades, suspend/re-open with and without version change, turn in-play with BSP reconciliation, runner removal, closure) x scripts of place/cancel (full, partial, larger than the remainder)/replace/update at any timing x plain/fill-or-kill/three persistence types x best-price execution on/off x full-match; order objects built inside the callback or before the run starts; buckets sampled at every strategy call; compared with the Coq model (both tie-breaks) and checked by an independent conservation checker")
 
 
 def replay(path):
